@@ -12,7 +12,9 @@ RULE = ("Models and points as in C01 (general grammar, lambdify back-end). Oracl
         "derivatives of the abstract model's right-hand side from second-order forward-mode jets (own code, "
         "self-tested against complex-step and central differences), laid out as jacobian[i,j], grad[i,k], "
         "diff_jacobian[i*nS+j,k]=d2f_i/dx_j dx_k, grad_jacobian[k*nS+i,j]=d2f_i/dtheta_k dx_j; tau-leap statistics "
-        "F=da/dx*V, mu=F*a, sigma2=(F*F)*a from reference rates and V. Non-trivial = (nS != nP or nS >= 3) and a rate "
+        "F=da/dx*V, mu=F*a, sigma2=(F*F)*a from reference rates and V. Three points are evaluated on the one model object and after "
+        "each point the returned arrays are used in place by the caller (scaled and shifted, as in acc += ... / J *= h), so a result "
+        "that aliases cached internal storage shows at the next point. Non-trivial = (nS != nP or nS >= 3) and a rate "
         "nonlinear in a state and a parameter multiplying a state; distinct by model hash.")
 ASSUMPTIONS = [
     "points are away from singularities by construction (positive denominators)",
@@ -40,6 +42,14 @@ def strategy(tier):
 NONLIN = {"mass", "massN", "sat1", "sat2", "expdecay", "expdecay0"}
 
 
+def _use_in_place(raw):
+    """What a caller may do with an array it was handed (acc = f(x0,t); acc += f(x1,t); J *= h): the array is the caller's,
+    so the next evaluation must still return the derivatives."""
+    if isinstance(raw, np.ndarray) and raw.flags.writeable and raw.dtype.kind == "f":
+        raw *= -3.0
+        raw += 7.0
+
+
 def oracle(case, rec):
     m = case["model"]
     n_s, n_p, n_e = len(ir.state_names(m)), len(m["params"]), len(m["events"])
@@ -56,30 +66,30 @@ def oracle(case, rec):
             raise Inconclusive("reference not finite")
         model.parameters = pt["theta"]
         x, t = pt["x"], pt["t"]
-        J = arr(call("C03/jacobian", case, conv_fn(model, "jacobian", conv), x, t), (n_s, n_s), "jacobian(x,t)", "C03/jacobian", case)
-        cmp(J, d["J"], "jacobian(x,t)", "C03/jacobian", case, 1e-8)
-        G = arr(call("C03/grad", case, conv_fn(model, "grad", conv), x, t), (n_s, n_p), "grad(x,t)", "C03/grad", case)
-        cmp(G, d["G"], "grad(x,t)", "C03/grad", case, 1e-8)
-        DJ = arr(call("C03/diff_jacobian", case, conv_fn(model, "diff_jacobian", conv), x, t), (n_s * n_s, n_s), "diff_jacobian(x,t)",
-                 "C03/diff_jacobian", case)
-        cmp(DJ, d["Hxx"].reshape(n_s * n_s, n_s), "diff_jacobian(x,t)", "C03/diff_jacobian", case, 1e-8)
-        GJ = arr(call("C03/grad_jacobian", case, model.grad_jacobian, x, t), (n_s * n_p, n_s), "grad_jacobian(x,t)",
-                 "C03/grad_jacobian", case)
+        used = []
+
+        def ev(key, fn, shape, what, ref, *tol):
+            """Evaluate, compare with the reference; afterwards the caller uses the returned array in place."""
+            raw = call(key, case, fn, x, t)
+            cmp(arr(raw, shape, what, key, case), ref, what, key, case, *tol)
+            used.append(raw)
+
+        ev("C03/jacobian", conv_fn(model, "jacobian", conv), (n_s, n_s), "jacobian(x,t)", d["J"], 1e-8)
+        ev("C03/grad", conv_fn(model, "grad", conv), (n_s, n_p), "grad(x,t)", d["G"], 1e-8)
+        ev("C03/diff_jacobian", conv_fn(model, "diff_jacobian", conv), (n_s * n_s, n_s), "diff_jacobian(x,t)",
+           d["Hxx"].reshape(n_s * n_s, n_s), 1e-8)
         ref_gj = np.transpose(d["Hpx"], (1, 0, 2)).reshape(n_s * n_p, n_s)     # [k, i, j] -> row k*nS+i
-        cmp(GJ, ref_gj, "grad_jacobian(x,t)", "C03/grad_jacobian", case, 1e-8)
+        ev("C03/grad_jacobian", model.grad_jacobian, (n_s * n_p, n_s), "grad_jacobian(x,t)", ref_gj, 1e-8)
         if n_e:
             F_ref = d["dadx"].dot(d["V"])                                       # F[i,j] = sum_k da_i/dx_k V[k,j]
             mu_ref = F_ref.dot(d["a"])
             var_ref = (F_ref ** 2).dot(d["a"])
-            F = arr(call("C03/transitionJacobian", case, model.transitionJacobian, x, t), (n_e, n_e),
-                    "transitionJacobian(x,t)", "C03/transitionJacobian", case)
-            cmp(F, F_ref, "transitionJacobian(x,t)", "C03/transitionJacobian", case, 1e-8)
-            mu = arr(call("C03/transitionMean", case, model.transitionMean, x, t), (n_e,), "transitionMean(x,t)",
-                     "C03/transitionMean", case)
-            cmp(mu, mu_ref, "transitionMean(x,t)", "C03/transitionMean", case, 1e-8, 1e-10)
-            var = arr(call("C03/transitionVar", case, model.transitionVar, x, t), (n_e,), "transitionVar(x,t)",
-                      "C03/transitionVar", case)
-            cmp(var, var_ref, "transitionVar(x,t)", "C03/transitionVar", case, 1e-8, 1e-10)
+            ev("C03/transitionJacobian", model.transitionJacobian, (n_e, n_e), "transitionJacobian(x,t)", F_ref, 1e-8)
+            ev("C03/transitionMean", model.transitionMean, (n_e,), "transitionMean(x,t)", mu_ref, 1e-8, 1e-10)
+            ev("C03/transitionVar", model.transitionVar, (n_e,), "transitionVar(x,t)", var_ref, 1e-8, 1e-10)
+        if case.get("in_place", True):
+            for raw in used:
+                _use_in_place(raw)
     kinds = {e.get("rate_kind") for e in m["events"]}
     par_times_state = bool(np.abs(d["Hpx"]).sum() > 0)
     if (n_s != n_p or n_s >= 3) and (kinds & NONLIN or np.abs(d["Hxx"]).sum() > 0) and par_times_state:
